@@ -130,6 +130,15 @@ func (c07) Gen(r *sim.Rand, c *sim.Case, tier string) {
 		// a task that owns two documents interleaves them itself
 		c.Tasks[s.task] = interleave(r, c.Tasks[s.task], ops)
 	}
+	if len(slots) >= 2 && r.Chance(0.12) {
+		// a conversion from a file whose output cannot be written (the target is a directory: a real, deterministic failure, no hook),
+		// and a document of another task converted from a string by the same Converter, with a relative picture
+		a, b := slots[0], slots[len(slots)-1]
+		failing := sim.Op{K: "mdfile", D: a.slot, I: []int{r.Range(-1, 15), 1}, S: []sim.Str{"report ![](figures/plot.png)\n\ntext\n"}}
+		later := []sim.Op{{K: "md", D: b.slot, I: []int{r.Intn(32)}, S: []sim.Str{"letter ![](pic.png) and ![](img/a.png)\n\nmore text\n"}}, {K: "save", D: b.slot, I: []int{r.Intn(2)}}, {K: "obs", D: b.slot, I: []int{0}}}
+		c.Tasks[a.task] = append([]sim.Op{failing}, c.Tasks[a.task]...)
+		c.Tasks[b.task] = append(later, c.Tasks[b.task]...)
+	}
 	c.SchedSeed = r.Uint64()
 	c.Order = orderPolicy(r)
 	c.OrderSeed = r.Uint64()
